@@ -272,6 +272,9 @@ def run(prop, tier, family="close"):
         # round 2: error values caught and raised again, with explicit position prefixes (spec/ErrPos.tla)
         import errpos
         errpos.check(rep, drv, tier)
+        # round 3: nothing is used up by catching errors (spec/Recovery.tla)
+        import recovery
+        recovery.check(rep, drv, tier)
     cov["exhaustive"] = True
     cov["distinct_nontrivial_rule"] = "nontrivial = paths whose expected trace contains at least two handler calls"
     rep.assumptions += ["an error propagating out of a coroutine body closes its pending variables when the coroutine dies (golua's reading)"]
